@@ -23,6 +23,8 @@ class _Base:
         if c.get('ctor_raises'):
             raise RuntimeError('constructor of %s fails' % type(self).__name__)
         self._init(JOURNAL, type(self).__name__, order=c.get('order', 0), active=c.get('active', True))
+        self._loading_seams = True
+        JOURNAL.seam(type(self).__name__, 'ctor')
 
 
 class ResA(rig.RecResource, _Base):
